@@ -23,7 +23,11 @@ let finish show (o : _ xoutcome) =
 let run_case toks =
   match toks with
   | idx :: _name :: form :: dims :: debug :: la :: lb :: lr :: _place :: v :: rest ->
-      let key = List.nth export_keys (int_of_string idx) in
+      (* <idx> is a row number of GenExports.exports, or an explicit key ty:Register:Kernel (the meaning of a NAME) *)
+      let key =
+        match String.split_on_char ':' idx with
+        | [t; r; k] -> ((ty_of_string t, reg_of_string r), kernel_of_string k)
+        | _ -> List.nth export_keys (int_of_string idx) in
       let ((t, _), _) = key in
       let f = if form = "c" then Const else Any in
       let dn = nat_of_int (if dims = "-" then 0 else int_of_string dims) in
